@@ -219,7 +219,8 @@ OPT_EDITS = [
     ('thr_lo', [], 'monotonicity_threshold', [0.1, 0.5]), ('thr_amp', [], 'burst_fraction_threshold', [0.3, 0.8]),
     ('thr_amp', [], 'min_n_cycles', [1, 4]), ('bk', [], 'amp_threshes', [[0.3, 1.0], [1, 2]]), ('bk', [], 'min_n_cycles', [1, 4]),
     ('bk2', [], 'amp_threshes', [[0.4, 1.1]]), ('bk_feat', [], 'amp_threshes', [[0.3, 1.0], [1, 2]]), ('bk_feat', [], 'min_n_cycles', [2, 4]),
-    ('bk_feat2', ['filter_kwargs'], 'n_cycles', [2, 7]), ('fek', [], 'boundary', [0, 5, 10]), ('fek', ['filter_kwargs'], 'n_cycles', [2, 5, 7]),
+    ('bk_feat2', ['filter_kwargs'], 'n_cycles', [2, 7]), ('bk_feat2', ['filter_kwargs'], 'magnitude_type', ['amplitude', 'power']),
+    ('bk2', ['filter_kwargs'], 'avg_type', ['median', 'mean']), ('fek', [], 'boundary', [0, 5, 10]), ('fek', ['filter_kwargs'], 'n_cycles', [2, 5, 7]),
     ('fek2', [], 'boundary', [3]), ('fek2', ['filter_kwargs'], 'n_cycles', [3, 7]), ('cfk', [], 'center_extrema', ['trough', 'peak']),
     ('cfk', ['threshold_kwargs'], 'min_n_cycles', [3, 1]), ('cfk', [], 'find_extrema_kwargs', [{'filter_kwargs': {'n_cycles': 5}}]),
     ('cfk_list', [1, 'threshold_kwargs'], 'monotonicity_threshold', [0.5, 0.0]), ('cfk_list', [0], 'center_extrema', ['trough']),
@@ -758,9 +759,10 @@ def _env(c):
         'sig': sig, 'buf2': buf2, 'thr': thr, 'thr_amp': {'burst_fraction_threshold': 0.5, 'min_n_cycles': 2},
         'thr_lo': dict(thr, amp_consistency_threshold=0.2, period_consistency_threshold=0.2, monotonicity_threshold=0.4),
         'thr_g': dict(thr),
-        'bk': {'amp_threshes': (0.5, 1.5)}, 'bk2': {'amp_threshes': (0.8, 1.8), 'filter_kwargs': {'n_cycles': 5}},
+        'bk': {'amp_threshes': (0.5, 1.5)}, 'bk2': {'amp_threshes': (0.8, 1.8), 'filter_kwargs': {'n_cycles': 5, 'avg_type': 'mean'}},
         'bk_feat': {'fs': fs, 'f_range': fr, 'amp_threshes': (0.5, 1.5)},
-        'bk_feat2': {'fs': fs, 'f_range': fr, 'amp_threshes': (0.3, 1.2), 'min_n_cycles': 2, 'filter_kwargs': {'n_cycles': 5}},
+        'bk_feat2': {'fs': fs, 'f_range': fr, 'amp_threshes': (0.3, 1.2), 'min_n_cycles': 2,
+                     'filter_kwargs': {'n_cycles': 5, 'avg_type': 'mean', 'magnitude_type': 'power'}},
         'fek': {'filter_kwargs': {'n_cycles': 3}, 'boundary': 2}, 'fek2': {'filter_kwargs': {'n_cycles': 5}, 'boundary': 0},
         'fek_ns': {'filter_kwargs': {'n_seconds': 2.5 / fr[0]}},
         'fek_nopad': {'filter_kwargs': {'n_cycles': 3}, 'pad': False},
